@@ -511,6 +511,7 @@ func (e *EdgeQuery) maybeAddResult(shape Shape, shapeID, edgeID int32) {
 }
 
 func (e *EdgeQuery) findEdgesBruteForce() {
+	verifCount("edgequery.brute")
 	// Range over all shapes in the index. Does order matter here? if so
 	// switch to for i = 0 .. n?
 	for shapeID, shape := range e.index.shapes {
@@ -525,6 +526,7 @@ func (e *EdgeQuery) findEdgesBruteForce() {
 }
 
 func (e *EdgeQuery) findEdgesOptimized() {
+	verifCount("edgequery.optimized")
 	e.initQueue()
 	// Repeatedly find the closest Cell to "target" and either split it into
 	// its four children or process all of its edges.
